@@ -397,7 +397,13 @@ func ruleUnitMix(c *Ctx, r *R) {
 						if a == uUnknown || bu == uUnknown || a == uTop || bu == uTop {
 							continue
 						}
-						report(fmt.Sprintf("binop(%s)", x.Op), ins, fmt.Sprintf("`%s` combines a value measured in %s with one measured in %s: they agree only for ASCII strings", x.Op, a, bu), a != bu)
+						// ordered comparisons share one key: inverting a condition (`a > b` to `!(a <= b)`) is not a new finding
+						opKey := x.Op.String()
+						switch x.Op {
+						case token.LSS, token.LEQ, token.GTR, token.GEQ:
+							opKey = "cmp"
+						}
+						report(fmt.Sprintf("binop(%s)", opKey), ins, fmt.Sprintf("`%s` combines a value measured in %s with one measured in %s: they agree only for ASCII strings", x.Op, a, bu), a != bu)
 					}
 				case *ssa.Call:
 					callee := x.Call.StaticCallee()
